@@ -6,6 +6,7 @@ import (
 	"fmt"
 	"os"
 	"testing"
+	"testing/synctest"
 )
 
 // TestVF_Debug: ad-hoc scenario runner used while triaging (not registered as a check).
@@ -14,17 +15,11 @@ func TestVF_Debug(t *testing.T) {
 		t.Skip("debug only")
 	}
 	vfGetPKI()
-	res := vfNewResult("C16", "debug")
-	var cases []vfC16Case
-	for _, c := range vfC16Cases() {
-		if c.Action == "read-deadline" && c.Phase == "established" {
-			cases = append(cases, c)
-		}
-	}
-	fmt.Println("cases", len(cases))
-	vfBubbles(t, len(cases)*400, func(t *testing.T, i int) { vfC16Run(t, res, cases[i%len(cases)]) })
+	res := vfNewResult("C06", "debug")
+	vfDumpWire = true
+	synctest.Test(t, func(t *testing.T) { vfC06EarlyDuplicates(t, res, 0) })
 	for _, v := range res.Violations {
 		fmt.Println(v.Signature, v.What)
 	}
-	fmt.Println("violations", len(res.Violations))
+	fmt.Println("violations", len(res.Violations), res.Counters)
 }
